@@ -18,6 +18,8 @@ CLAUSES = {
     "C04": ["C04_iterates", "C04_reader", "C20_exposed"],
     "C05": ["C05_value", "C01_settles", "C20_exposed"],
     "C06": ["C06_entity", "C06_condition", "C06_enable", "C01_value", "C02_bag", "C01_settles"],
+    "C08": ["C08_proto", "C08_overlap", "C08_wire_ends", "C08_wire_colour", "C08_wire_reach", "C01_value", "C02_bag", "C03_value", "C06_entity",
+            "C06_condition", "C06_enable", "C01_settles", "C08_layout_trace", "C08_layout_invariant", "C08_outcome"],
     "C09": ["C09_bag", "C09_props", "C09_extra"],
     "C10": ["R2_equal", "R2_exposed", "C01_settles"],
     "C11": ["C01_value", "R2_equal", "C11_range", "C01_settles"],
@@ -27,6 +29,8 @@ CLAUSES = {
     "C15": ["R2_equal", "R2_exposed", "C01_value", "C03_value", "C06_entity", "C06_condition", "C06_enable", "C09_bag", "C09_extra", "C01_settles"],
     "C16": ["R2_equal", "R2_exposed", "C01_value", "C03_value", "C06_entity", "C06_condition", "C06_enable", "C09_bag", "C09_extra", "C01_settles"],
     "C17": ["R2_equal", "R2_exposed", "C01_value", "C01_settles", "C17_terminates", "C17_import_trace", "C17_import_once"],
+    "C18": ["C18_powered", "C18_one_grid", "C18_no_option", "C08_wire_reach", "C08_wire_ends", "C08_overlap", "R2_equal", "R2_exposed",
+            "C09_bag", "C09_extra", "C06_enable", "C06_entity", "C06_condition", "C01_settles"],
     "C20": ["C20_exposed", "C20_label", "C20_input", "C01_value", "C02_bag"],
 }
 
@@ -104,10 +108,10 @@ def note_impl_reject(ctx, p, r):
 
 
 def run_refine(ctx, progs, consts, module="Refine", cfg=None, opts=None, batch_size=40, item_fn=None, variants=None,
-               timeout=3000, keep_results=False):
+               timeout=3000, keep_results=False, precompiled=None):
     """Compile, encode, validate with TLC. item_fn(p, results) -> item dict (with 'bps') or None."""
     cfg = cfg or refine.CFG_REFINE
-    compiled = compile_records(ctx, progs, opts, variants)
+    compiled = precompiled if precompiled is not None else compile_records(ctx, progs, opts, variants)
     if keep_results:
         ctx.results = compiled
     items, srcs = [], {}
@@ -153,9 +157,11 @@ def run_refine(ctx, progs, consts, module="Refine", cfg=None, opts=None, batch_s
             ctx.add("unobservable_input" if "input-not-found" in unsup else "unsupported_json_feature", 1)
             unobs += 1
             continue
+        failed = any(f[0] == it["id"] for f in br.fails) or any(k[0] == it["id"] for k in br.known)
+        if inits < 1 and failed:
+            continue
         if inits < 1:
             raise Machinery("record %s: no initial state was generated" % it["id"])
-        failed = any(f[0] == it["id"] for f in br.fails) or any(k[0] == it["id"] for k in br.known)
         if not hist and checked + undef + corner != inits and not failed:
             raise Machinery("record %s: %d valuations but %d settled states accounted for" % (it["id"], inits, checked + undef + corner))
         if checked == 0:
@@ -552,6 +558,149 @@ def c14(ctx):
         ctx.violation(rid, unq(f[2]), ", ".join(f[3:]), {"src": srcs.get(rid.replace("-cli", "")), "item": {}, "module": "Reject"})
     for r in recs[:3]:
         ctx.sample({"src": srcs.get(r["id"].replace("-cli", "")), "rule": r["rule"], "ctx": r["ctx"], "status": r["status"], "message": r["message"][:160]})
+
+
+def layout_corpus(ctx, quick_n):
+    """Programs for the layout-sensitive properties: the GenLayout families (far apart entities, fan-out, long chains) plus a
+    slice of every other family."""
+    out = []
+
+    def take(mod, prefix, n, filt=None, **extra):
+        ps = with_ids(gen.generate(mod), prefix)
+        if filt:
+            ps = [p for p in ps if filt(p)]
+        for p in pick(ps, n, ctx.seed):
+            q = dict(p)
+            q.update(extra)
+            out.append(q)
+    take("GenLayout", "gl", 100)
+    k = quick_n
+    take("GenScalar", "sc", 3 * k, lambda p: p["grp"] in ("form", "share", "pair"))
+    take("GenBundle", "bu", k)
+    take("GenMem", "me", k, lambda p: p["grp"] in ("cell", "latch1", "latchx"), hist=True)
+    take("GenEntity", "en", 2 * k, lambda p: p["grp"].startswith("c06:") or p["grp"] in ("c09:loop", "c09:func", "c09:mixed"))
+    take("GenFL", "fl", k, lambda p: p.get("mode") != "hist")
+    return out
+
+
+def layout_item(p, r, **extra):
+    items = sorted({c["item"] for c in p.get("cins", [])}) if p.get("cins") else []
+    it = {"id": p["id"], "stmts": p["stmts"], "u": 1, "bps": [prep_bp(r["bp"], extra=items)]}
+    if p.get("dom"):
+        it["dom"] = p["dom"]
+    if p.get("cins"):
+        it["cins"] = p["cins"]
+    if p.get("hist") or p.get("mode") == "hist":
+        it["mode"] = "hist"
+        it["vclause"] = "C03_value"
+    it.update(extra)
+    return it
+
+
+LAYOUT_SCRIPTS = [
+    ("det", {"det": True, "seed": 7, "dtime": 0.5, "workers": 1}),
+    ("q-none", {"det": True, "seed": 7, "dtime": 0.5, "workers": 1, "solve": ["none"]}),
+    ("3-none", {"det": True, "seed": 7, "dtime": 0.5, "workers": 1, "solve": ["none", "none", "none"]}),
+    ("5-none", {"det": True, "seed": 7, "dtime": 0.5, "workers": 1, "solve": ["none"] * 5}),
+    ("all-none", {"det": True, "seed": 7, "dtime": 0.5, "workers": 1, "solve": ["none"] * 8}),
+    ("r1", {"det": True, "seed": 7, "dtime": 0.5, "workers": 1, "route": [False]}),
+    ("r2", {"det": True, "seed": 11, "dtime": 0.5, "workers": 1, "route": [False, False]}),
+    ("r3", {"det": True, "seed": 7, "dtime": 0.5, "workers": 1, "route": [False, False, False], "solve": ["none"]}),
+    ("r4", {"det": True, "seed": 7, "dtime": 0.5, "workers": 1, "route": [False, False, False, False]}),
+    ("seed3", {"det": True, "seed": 3, "dtime": 0.2, "workers": 1}),
+    ("nat", {"seed": 5, "workers": 4, "wall": 2}),
+]
+
+
+def validate_layout_traces(ctx, recs, results):
+    traces = []
+    for p in recs:
+        r = results.get(p["id"], {}).get("")
+        if not r or r.get("status") not in ("ok", "rejected"):
+            continue
+        evs = []
+        big = False
+        for e in r.get("events", []):
+            if e.get("ev") == "solve":
+                evs.append({"ev": "solve", "strategy": e["strategy"], "status": e["status"]})
+            elif e.get("ev") == "route":
+                evs.append({"ev": "route", "attempt": e["attempt"], "ok": bool(e["ok"])})
+                big = big or e.get("entities", 0) > 500
+        if big or not evs:
+            continue
+        traces.append({"id": p["id"], "outcome": r["status"], "events": evs})
+    if not traces:
+        raise Machinery("no layout events were recorded (hook H2 missing?)")
+    ok, rej, fails, states, errors = refine.run_trace_batches(ctx.wd, "TraceLayout", refine.CFG_TRACE_LAYOUT, traces, batch_size=40)
+    if errors:
+        raise Machinery("layout trace validation failed to run: " + " | ".join(errors[:2]))
+    if len(ok) + len(rej) != len(traces):
+        raise Machinery("layout trace validation: %d traces, %d verdicts" % (len(traces), len(ok) + len(rej)))
+    ctx.add("states", states)
+    ctx.cov["layout_traces_accepted"] = len(ok)
+    ctx.cov["layout_events_validated"] = sum(len(t["events"]) for t in traces)
+    src = {p["id"]: p for p in recs}
+    for tid, got, total, nxt in rej:
+        ctx.violation(tid, "C08_layout_trace", "layout events are not a behaviour of Layout ending in the observed outcome: %d of %d explained; next: %s" % (got, total, nxt[:200]),
+                      {"src": src[tid]["src"], "item": {}, "module": "TraceLayout", "job": src[tid].get("job")})
+    for tid, clause, info in fails:
+        ctx.violation(tid, clause, info, {"src": src[tid]["src"], "item": {}, "module": "TraceLayout"})
+
+
+@prop("C08")
+def c08(ctx):
+    quick = ctx.tier == "quick"
+    base = layout_corpus(ctx, 6 if quick else 14)
+    poles = [None, "small", "medium", "big", "substation"]
+    recs = []
+    for i, p in enumerate(base):
+        combos = []
+        h = stable_hash(p["id"]) + ctx.seed
+        if quick:
+            combos.append((poles[h % 5], (h // 5) % 2 == 0, LAYOUT_SCRIPTS[(h // 10) % len(LAYOUT_SCRIPTS)]))
+            combos.append((None, True, LAYOUT_SCRIPTS[0]))
+        else:
+            for j, sc in enumerate(LAYOUT_SCRIPTS):
+                combos.append((poles[(h + j) % 5], (h + j) % 2 == 0, sc))
+            combos.append((None, True, LAYOUT_SCRIPTS[0]))
+        for pl, opt, (sname, script) in combos:
+            q = dict(p)
+            q["id"] = "%s-%s-%s-%s" % (p["id"], pl or "nopole", "opt" if opt else "noopt", sname)
+            q["job"] = {"poles": pl, "optimize": opt, "layout": script, "trace": True, "tracedir": ctx.wd}
+            q["expect_error"] = sname in ("all-none", "r4")
+            recs.append(q)
+    seen = set()
+    recs = [r for r in recs if not (r["id"] in seen or seen.add(r["id"]))]
+    ctx.cov["corpus_size"] = len(recs)
+    ctx.cov["exhaustive"] = False
+    ctx.cov["rule"] = ("(1) Layout control-flow model checked exhaustively (6-step ladder, 3 retries, every solver / routing outcome) incl. "
+                       "liveness; (2) programs from GenLayout (entities 10-45 tiles apart, fan-out rows, chains of up to 26 operations, wide "
+                       "programs) and a slice of every other family x power-pole option x optimise on/off x layout-outcome scripts that are "
+                       "behaviours of the model (forced solver failures of the first 1/3/5/all strategies, forced routing failures of the "
+                       "first 1..4 attempts, other solver seeds, natural multi-worker mode) forced into the real code through hook H2; "
+                       "every emitted blueprint: Paste (no overlapping collision boxes, wire ends exist with such a connector, one colour per "
+                       "wire, length <= reach of both ends) and Refine1 (a relay that joined two networks would change a value); hook events "
+                       "validated as a behaviour of Layout ending in the observed outcome; a scripted total failure must give no blueprint")
+    ctx.assumptions = ASSUME_BASE + ["prototype geometry and wire reach are read from the draftsman game data (Proto.tla)",
+                                     "relay coherence is decided semantically: every relay-heavy blueprint must still refine the source"]
+    design_mc(ctx, "MC_Layout", "MC_Layout.cfg")
+
+    def item(p, rs):
+        return layout_item(p, rs[""])
+    ok_recs = recs
+    compiled = compile_records(ctx, recs)
+    ctx.results = compiled
+    # outcome clause: scripted total failure => refused; otherwise a refusal is outside the antecedent
+    for p in recs:
+        r = compiled[p["id"]][""]
+        if p["expect_error"] and r.get("status") == "ok":
+            ctx.violation(p["id"], "C08_outcome", "every attempt was scripted to fail but a blueprint was emitted", {"src": p["src"], "item": {}, "job": p["job"]})
+    good = [p for p in recs if compiled[p["id"]][""].get("status") == "ok"]
+    ctx.cov["scripted_refusals"] = sum(1 for p in recs if compiled[p["id"]][""].get("status") == "rejected")
+    ctx.cov["blueprints_with_relays"] = sum(1 for p in good if any(e["name"].endswith("pole") or e["name"] == "substation"
+                                                                  for e in compiled[p["id"]][""]["bp"]["blueprint"].get("entities", [])))
+    run_refine(ctx, good, {"DomCap": 30 if quick else 120}, item_fn=item, batch_size=14, precompiled=compiled)
+    validate_layout_traces(ctx, recs, compiled)
 
 
 def design_mc(ctx, module, cfg):
